@@ -43,6 +43,7 @@ def concretise(case, r, seed):
     Qb = twin_canon(qdoc)
     sigs = gamma.build_sigmap(case, keys, Pb, Qb, r, nonascii=True, surrogates=True)
     new = {"signatures": sigs, "signed": ndoc}
+    gamma.prime_related(case, keys, sigs, qdoc)
     metadata.apply_envelope(new, case["n"]["wfc"], r)
     return trusted, new
 
